@@ -50,6 +50,16 @@ type Scenario struct {
 // (time left over by a scenario that finishes early is inherited by the later ones).
 func ExploreAll(scs []Scenario) {
 	r := Rep()
+	if f := os.Getenv("VERIF_SCENARIO_FILTER"); f != "" { // development aid: explore a subset only
+		var keep []Scenario
+		for _, sc := range scs {
+			if strings.Contains(sc.Cfg.Scenario, f) {
+				keep = append(keep, sc)
+			}
+		}
+		scs = keep
+		r.Note("VERIF_SCENARIO_FILTER=%s active: this run is partial", f)
+	}
 	for i, sc := range scs {
 		left := time.Until(r.deadline)
 		if left < 0 {
